@@ -10,7 +10,7 @@
    absent (not admitted) — see notes/ALGO_design.md for the exact state. *)
 From Coq Require Import NArith List Bool.
 From CS Require Import Sx Str PathModel StateModel StateProofs ProvModel AlgoModel AlgoCheck AlgoProofs AlgoState AlgoProv AlgoInv AlgoInit AlgoQuiet AlgoIntake
-     AlgoSync AlgoLatest AlgoFinish AlgoSyncEntry AlgoStep.
+     AlgoSync AlgoLatest AlgoFinish AlgoSyncEntry AlgoStep AlgoUser.
 Import ListNotations.
 Local Open Scope N_scope.
 
@@ -169,6 +169,54 @@ Theorem ALGO_quiescent_equal_under_inv : forall g w, Inv g w -> quiescent w = tr
   forall rel kd d, In (rel, (kd, d)) (rel_view w false) <-> In (rel, (kd, d)) (rel_view w true).
 Proof. exact inv_quiescent_equal. Qed.
 Print Assumptions ALGO_quiescent_equal_under_inv.
+
+(* ---- user operations of the domain -------------------------------------------------------------------------- *)
+(* [Dom used lvL lvR g w] links the bookkeeping of the domain predicate in_F1 (names used so far; per side the files
+   its user made and still has, with the contents written) to the world.  Each user operation the domain allows
+   succeeds on the provider, keeps the invariant (the ghost grows) and the link. *)
+Theorem ALGO_inv_user_create : forall used lvL lvR g w sd n d,
+  Inv g w -> NoTmp w -> Dom used lvL lvR g w -> name_ok n = true -> name_mem n used = false ->
+  exists g', Inv g' (user_op w sd (UCreate [n] d)) /\ NoTmp (user_op w sd (UCreate [n] d)) /\
+     Dom (n :: used) (if sd then lvL else ([n], [d]) :: lvL) (if sd then ([n], [d]) :: lvR else lvR) g' (user_op w sd (UCreate [n] d)).
+Proof. exact user_create_pres. Qed.
+Print Assumptions ALGO_inv_user_create.
+
+Theorem ALGO_inv_user_write : forall used lvL lvR g w (sd : bool) rel d cs,
+  Inv g w -> NoTmp w -> Dom used lvL lvR g w ->
+  live_get rel (if sd then lvR else lvL) = Some cs -> n_mem d cs = false ->
+  exists g', Inv g' (user_op w sd (UWrite rel d)) /\ NoTmp (user_op w sd (UWrite rel d)) /\
+    Dom used (if sd then lvL else (rel, d :: cs) :: live_del rel lvL) (if sd then (rel, d :: cs) :: live_del rel lvR else lvR)
+        g' (user_op w sd (UWrite rel d)).
+Proof. exact user_write_pres. Qed.
+Print Assumptions ALGO_inv_user_write.
+
+Theorem ALGO_inv_user_delete : forall used lvL lvR g w (sd : bool) rel cs,
+  Inv g w -> NoTmp w -> Dom used lvL lvR g w ->
+  live_get rel (if sd then lvR else lvL) = Some cs ->
+  exists g', Inv g' (user_op w sd (UDelete rel)) /\ NoTmp (user_op w sd (UDelete rel)) /\
+    Dom used (if sd then lvL else live_del rel lvL) (if sd then live_del rel lvR else lvR) g' (user_op w sd (UDelete rel)).
+Proof. exact user_delete_pres. Qed.
+Print Assumptions ALGO_inv_user_delete.
+
+(* ---- whole runs: ALL in-domain histories, ALL schedules ------------------------------------------------------- *)
+(* [acts] = any interleaving of user operations, per-side intake steps and sync steps, each engine step with any
+   clock reading and any iteration order of the change set; [history_of acts] = its user operations, in F1's domain.
+   Every world such a run reaches (i.e. the model answers ROk all the way) satisfies the coupling invariant. *)
+Theorem ALGO_inv_reachable : forall t0 lg0 acts w,
+  lg0 <= t0 + 1 -> in_F1 (cfg_std 1) (history_of acts) = true ->
+  algo_run (world_init (cfg_std 1) t0 lg0) acts = ROk w -> exists g, Inv g w /\ NoTmp w.
+Proof. exact algo_inv_reachable. Qed.
+Print Assumptions ALGO_inv_reachable.
+
+(* two-way convergence, safety half (C01) and one-sided mirror (C03, as the special case of a one-sided history):
+   whenever such a run is quiescent - no pending event on either side, empty change set - the two root-relative
+   trees are equal *)
+Theorem ALGO_quiescent_equal : forall t0 lg0 acts w,
+  lg0 <= t0 + 1 -> in_F1 (cfg_std 1) (history_of acts) = true ->
+  algo_run (world_init (cfg_std 1) t0 lg0) acts = ROk w -> quiescent w = true ->
+  forall rel kd d, In (rel, (kd, d)) (rel_view w false) <-> In (rel, (kd, d)) (rel_view w true).
+Proof. exact algo_quiescent_equal. Qed.
+Print Assumptions ALGO_quiescent_equal.
 
 (* ---- the full-strength statement is false: finding A-1 ------------------------------------------------------ *)
 (* dropping "a content written to a file is new for that file" from the domain: a one-sided history of 4
